@@ -187,7 +187,7 @@ def run(tier, cmd):
                             'per-channel scanner state, that the two encoded messages yield None then exactly the original message '
                             '(build14(high7 v, low7 v) = v by bit provenance; the MSB row overwrites whatever was there). Channel routing of the '
                             'outer scanner is C15.')
-    Fs = load_configs(chk, ['K1'] + (['K2'] if tier == 'thorough' else []), required=('K1',))
+    Fs = load_configs(chk, ['K1', 'K2'], required=('K1',))
     for cfg, F in sorted(Fs.items()):
         roles = A.msg_roles(F)
         miss = [k[1] for k, v in roles.items() if k[0] == CC14 and v is None]
